@@ -48,7 +48,7 @@ macro_rules! apply {
 }
 
 /// One edit through a fresh handle.
-fn one_op<const OP: u8, const N: usize, const M: usize>() {
+fn one_op<const OP: u8, const SOME: bool, const N: usize, const M: usize>() {
     let t = Text::<N>::any();
     let b = t.bytes();
     assume(tables::t_uri_uriref_valid_k(b, N));
@@ -57,9 +57,12 @@ fn one_op<const OP: u8, const N: usize, const M: usize>() {
     let cb = comps_of(b, &before);
     let a = Text::<M>::any();
     let arg = a.bytes();
-    let some = if OP == HOST { true } else { any_bool() };
+    // whether a value is set or removed is fixed per harness (it halves the formula)
+    let some = SOME;
     if some {
         assume(arg_valid(OP, arg));
+    } else {
+        assume(arg.is_empty());
     }
     let (a0, a1) = before.authority.unwrap();
 
@@ -75,34 +78,66 @@ fn one_op<const OP: u8, const N: usize, const M: usize>() {
     assert!(tables::t_uri_uriref_valid_k(out, N + M + 1), "C04: the buffer is no longer a valid URI reference after the authority edit");
     let fresh = x.authority().unwrap().as_bytes();
     assert!(hp == fresh.as_ptr() && hl == fresh.len(), "C11: after the call the handle does not view exactly the new authority");
-    cover!(some && out.len() > b.len(), "longer replacement");
-    cover!(out.len() < b.len(), "shorter replacement or removal");
+    cover!(if SOME { out.len() > b.len() } else { out.len() < b.len() }, "the text grew (value set) / shrank (value removed)");
+    cover!(if SOME { out.len() < b.len() } else { out.len() == b.len() }, "shorter replacement / nothing to remove");
     cover!(cb.path.len() > 0 && cb.query.is_some(), "path and query follow the authority");
     forget(x);
 }
 
-// @h prop=C11,C04 tier=quick kind=check timeout=2400 mem=15 bound="UriRefBuf with authority, text <= 4 bytes, user info <= 2 bytes or removal" encodes="RiRefBufImpl::authority_mut;AuthorityMutImpl::{set_userinfo,as_authority};parse::find_user_info;utils::{replace,allocate_range}"
+// @h prop=C11,C04 tier=quick kind=check timeout=2400 mem=12 bound="UriRefBuf with authority, text <= 3 bytes, user info <= 1 byte" encodes="RiRefBufImpl::authority_mut;AuthorityMutImpl::{set_userinfo,as_authority};parse::find_user_info;utils::{replace,allocate_range}"
+#[cfg_attr(kani, kani::proof)]
+#[cfg_attr(kani, kani::unwind(7))]
+#[cfg_attr(kani, kani::stub(std::vec::Vec::resize, crate::stubs::vec_resize))]
+pub fn c11_set_userinfo_some_n3() {
+    one_op::<USERINFO, true, 3, 1>()
+}
+
+// @h prop=C11,C04 tier=thorough kind=check timeout=2400 mem=17 bound="UriRefBuf with authority, text <= 4 bytes, user info <= 2 bytes" encodes="RiRefBufImpl::authority_mut;AuthorityMutImpl::{set_userinfo,as_authority};parse::find_user_info;utils::{replace,allocate_range}"
 #[cfg_attr(kani, kani::proof)]
 #[cfg_attr(kani, kani::unwind(8))]
 #[cfg_attr(kani, kani::stub(std::vec::Vec::resize, crate::stubs::vec_resize))]
-pub fn c11_set_userinfo_n4() {
-    one_op::<USERINFO, 4, 2>()
+pub fn c11_set_userinfo_some_n4() {
+    one_op::<USERINFO, true, 4, 2>()
 }
 
-// @h prop=C11,C04 tier=thorough kind=check timeout=3600 mem=34 bound="UriRefBuf with authority, text <= 6 bytes, user info <= 2 bytes or removal" encodes="RiRefBufImpl::authority_mut;AuthorityMutImpl::{set_userinfo,as_authority};parse::find_user_info;utils::{replace,allocate_range}"
+// @h prop=C11,C04:thorough tier=quick kind=check timeout=2400 mem=12 bound="UriRefBuf with authority, text <= 3 bytes, user info removed" encodes="RiRefBufImpl::authority_mut;AuthorityMutImpl::{set_userinfo,as_authority};parse::find_user_info;utils::{replace,allocate_range}"
+#[cfg_attr(kani, kani::proof)]
+#[cfg_attr(kani, kani::unwind(7))]
+#[cfg_attr(kani, kani::stub(std::vec::Vec::resize, crate::stubs::vec_resize))]
+pub fn c11_set_userinfo_none_n3() {
+    one_op::<USERINFO, false, 3, 0>()
+}
+
+// @h prop=C11,C04 tier=thorough kind=check timeout=2400 mem=17 bound="UriRefBuf with authority, text <= 4 bytes, user info removed" encodes="RiRefBufImpl::authority_mut;AuthorityMutImpl::{set_userinfo,as_authority};parse::find_user_info;utils::{replace,allocate_range}"
+#[cfg_attr(kani, kani::proof)]
+#[cfg_attr(kani, kani::unwind(8))]
+#[cfg_attr(kani, kani::stub(std::vec::Vec::resize, crate::stubs::vec_resize))]
+pub fn c11_set_userinfo_none_n4() {
+    one_op::<USERINFO, false, 4, 0>()
+}
+
+// @h prop=C11,C04 tier=thorough kind=check timeout=3600 mem=34 bound="UriRefBuf with authority, text <= 6 bytes, user info <= 2 bytes" encodes="RiRefBufImpl::authority_mut;AuthorityMutImpl::{set_userinfo,as_authority};parse::find_user_info;utils::{replace,allocate_range}"
 #[cfg_attr(kani, kani::proof)]
 #[cfg_attr(kani, kani::unwind(10))]
 #[cfg_attr(kani, kani::stub(std::vec::Vec::resize, crate::stubs::vec_resize))]
-pub fn c11_set_userinfo_n6() {
-    one_op::<USERINFO, 6, 2>()
+pub fn c11_set_userinfo_some_n6() {
+    one_op::<USERINFO, true, 6, 2>()
 }
 
-// @h prop=C11,C04 tier=quick kind=check timeout=2400 mem=15 bound="UriRefBuf with authority, text <= 4 bytes, host <= 2 bytes" encodes="AuthorityMutImpl::{set_host,as_authority};parse::find_host;utils::replace"
+// @h prop=C11,C04 tier=thorough kind=check timeout=3600 mem=34 bound="UriRefBuf with authority, text <= 6 bytes, user info removed" encodes="RiRefBufImpl::authority_mut;AuthorityMutImpl::{set_userinfo,as_authority};parse::find_user_info;utils::{replace,allocate_range}"
+#[cfg_attr(kani, kani::proof)]
+#[cfg_attr(kani, kani::unwind(10))]
+#[cfg_attr(kani, kani::stub(std::vec::Vec::resize, crate::stubs::vec_resize))]
+pub fn c11_set_userinfo_none_n6() {
+    one_op::<USERINFO, false, 6, 0>()
+}
+
+// @h prop=C11,C04 tier=quick kind=check timeout=2400 mem=13 bound="UriRefBuf with authority, text <= 4 bytes, host <= 2 bytes" encodes="AuthorityMutImpl::{set_host,as_authority};parse::find_host;utils::replace"
 #[cfg_attr(kani, kani::proof)]
 #[cfg_attr(kani, kani::unwind(8))]
 #[cfg_attr(kani, kani::stub(std::vec::Vec::resize, crate::stubs::vec_resize))]
 pub fn c11_set_host_n4() {
-    one_op::<HOST, 4, 2>()
+    one_op::<HOST, true, 4, 2>()
 }
 
 // @h prop=C11,C04 tier=thorough kind=check timeout=3600 mem=34 bound="UriRefBuf with authority, text <= 6 bytes, host <= 2 bytes" encodes="AuthorityMutImpl::{set_host,as_authority};parse::find_host;utils::replace"
@@ -110,23 +145,55 @@ pub fn c11_set_host_n4() {
 #[cfg_attr(kani, kani::unwind(10))]
 #[cfg_attr(kani, kani::stub(std::vec::Vec::resize, crate::stubs::vec_resize))]
 pub fn c11_set_host_n6() {
-    one_op::<HOST, 6, 2>()
+    one_op::<HOST, true, 6, 2>()
 }
 
-// @h prop=C11,C04:thorough tier=quick kind=check timeout=2400 mem=15 bound="UriRefBuf with authority, text <= 4 bytes, port <= 2 bytes or removal" encodes="AuthorityMutImpl::{set_port,as_authority};parse::find_port;utils::{replace,allocate_range}"
+// @h prop=C11,C04:thorough tier=quick kind=check timeout=2400 mem=12 bound="UriRefBuf with authority, text <= 3 bytes, port <= 1 byte" encodes="AuthorityMutImpl::{set_port,as_authority};parse::find_port;utils::{replace,allocate_range}"
+#[cfg_attr(kani, kani::proof)]
+#[cfg_attr(kani, kani::unwind(7))]
+#[cfg_attr(kani, kani::stub(std::vec::Vec::resize, crate::stubs::vec_resize))]
+pub fn c11_set_port_some_n3() {
+    one_op::<PORT, true, 3, 1>()
+}
+
+// @h prop=C11,C04 tier=thorough kind=check timeout=2400 mem=17 bound="UriRefBuf with authority, text <= 4 bytes, port <= 2 bytes" encodes="AuthorityMutImpl::{set_port,as_authority};parse::find_port;utils::{replace,allocate_range}"
 #[cfg_attr(kani, kani::proof)]
 #[cfg_attr(kani, kani::unwind(8))]
 #[cfg_attr(kani, kani::stub(std::vec::Vec::resize, crate::stubs::vec_resize))]
-pub fn c11_set_port_n4() {
-    one_op::<PORT, 4, 2>()
+pub fn c11_set_port_some_n4() {
+    one_op::<PORT, true, 4, 2>()
 }
 
-// @h prop=C11,C04 tier=thorough kind=check timeout=3600 mem=34 bound="UriRefBuf with authority, text <= 6 bytes, port <= 2 bytes or removal" encodes="AuthorityMutImpl::{set_port,as_authority};parse::find_port;utils::{replace,allocate_range}"
+// @h prop=C11,C04:thorough tier=quick kind=check timeout=2400 mem=12 bound="UriRefBuf with authority, text <= 3 bytes, port removed" encodes="AuthorityMutImpl::{set_port,as_authority};parse::find_port;utils::{replace,allocate_range}"
+#[cfg_attr(kani, kani::proof)]
+#[cfg_attr(kani, kani::unwind(7))]
+#[cfg_attr(kani, kani::stub(std::vec::Vec::resize, crate::stubs::vec_resize))]
+pub fn c11_set_port_none_n3() {
+    one_op::<PORT, false, 3, 0>()
+}
+
+// @h prop=C11,C04 tier=thorough kind=check timeout=2400 mem=17 bound="UriRefBuf with authority, text <= 4 bytes, port removed" encodes="AuthorityMutImpl::{set_port,as_authority};parse::find_port;utils::{replace,allocate_range}"
+#[cfg_attr(kani, kani::proof)]
+#[cfg_attr(kani, kani::unwind(8))]
+#[cfg_attr(kani, kani::stub(std::vec::Vec::resize, crate::stubs::vec_resize))]
+pub fn c11_set_port_none_n4() {
+    one_op::<PORT, false, 4, 0>()
+}
+
+// @h prop=C11,C04 tier=thorough kind=check timeout=3600 mem=34 bound="UriRefBuf with authority, text <= 6 bytes, port <= 2 bytes" encodes="AuthorityMutImpl::{set_port,as_authority};parse::find_port;utils::{replace,allocate_range}"
 #[cfg_attr(kani, kani::proof)]
 #[cfg_attr(kani, kani::unwind(10))]
 #[cfg_attr(kani, kani::stub(std::vec::Vec::resize, crate::stubs::vec_resize))]
-pub fn c11_set_port_n6() {
-    one_op::<PORT, 6, 2>()
+pub fn c11_set_port_some_n6() {
+    one_op::<PORT, true, 6, 2>()
+}
+
+// @h prop=C11,C04 tier=thorough kind=check timeout=3600 mem=34 bound="UriRefBuf with authority, text <= 6 bytes, port removed" encodes="AuthorityMutImpl::{set_port,as_authority};parse::find_port;utils::{replace,allocate_range}"
+#[cfg_attr(kani, kani::proof)]
+#[cfg_attr(kani, kani::unwind(10))]
+#[cfg_attr(kani, kani::stub(std::vec::Vec::resize, crate::stubs::vec_resize))]
+pub fn c11_set_port_none_n6() {
+    one_op::<PORT, false, 6, 0>()
 }
 
 /// Two edits through ONE handle, ops chosen symbolically, give exactly what the
